@@ -36,28 +36,38 @@ theorem flags_consistent (cfg : Nat → Cfg) (ops : List Op) (m : Nat) :
     ((s.modes m).active = true → (s.modes m).starting = false) ∧ ((s.modes m).stopping = true → (s.modes m).active = true) :=
   ⟨(run_inv _ ops (inv_init cfg)).excl m, (run_inv _ ops (inv_init cfg)).stopAct m⟩
 
-/-- Clause 3: whatever happened before, when a mode's stop completes (`_mode_stopped_callback` runs) and no newer
-start of that mode is under way, no event handler, switch handler or delay owned by that mode is left. -/
+/-- Clause 3: whatever happened before, when the cleanup of a stop runs in `_mode_stopped_callback` (the stop's cleanup
+is still pending and no newer start of that mode is under way), no event handler, switch handler or delay owned by that
+mode is left.  (`_stopped` always leaves the cleanup pending: `stopped_leaves_cleanup_pending`.) -/
 theorem registries_restored (cfg : Nat → Cfg) (ops : List Op) (m : Nat) (s' : St)
     (h : step (run (init cfg) ops) (.stoppedCb m) = some s')
-    (ha : ((run (init cfg) ops).modes m).active = false) (hs : ((run (init cfg) ops).modes m).starting = false) :
+    (ha : ((run (init cfg) ops).modes m).active = false) (hs : ((run (init cfg) ops).modes m).starting = false)
+    (hc : ((run (init cfg) ops).modes m).cleanupPending = true) :
     (∀ e ∈ s'.bus, e.owner ≠ m) ∧ (∀ e ∈ s'.sw, e.owner ≠ m) ∧ (∀ e ∈ s'.dl, e.owner ≠ m) := by
   have hI := run_inv _ ops (inv_init cfg)
   simp only [step] at h
   split at h
   · cases h
   · cases h
-    refine ⟨?_, ?_, ?_⟩ <;> dsimp only <;> intro e he heq <;> simp only [List.mem_filter] at he
+    simp only [cbCore, cleanup, hc, if_true]
+    refine ⟨?_, ?_, ?_⟩ <;> intro e he heq <;> simp only [List.mem_filter] at he
     · have h2 := he.2
-      have hc : e.cls = .cfg := by
+      have hcl : e.cls = .cfg := by
         cases hcl : e.cls <;> simp [ownedBy, heq, hcl] at h2 ⊢
-      have := hI.cfgOwned e he.1 hc
+      have := hI.cfgOwned e he.1 hcl
       rw [heq, ha, hs] at this
       simp at this
     · have h2 := he.2
       simp [ownedBy, heq] at h2
     · have h2 := he.2
       simp [ownedBy, heq] at h2
+
+theorem stopped_leaves_cleanup_pending (st st' : St) (m : Nat) (h : step st (.stopped m) = some st') :
+    (st'.modes m).cleanupPending = true ∧ (st'.modes m).active = false := by
+  simp only [step] at h
+  split at h
+  · cases h
+  · cases h; simp
 
 /-- Frame: no step of mode `m` (lifecycle or user code) touches a registry entry owned by another mode. -/
 theorem others_untouched (st st' : St) (op : Op) (h : step st op = some st') :
@@ -67,7 +77,7 @@ theorem others_untouched (st st' : St) (op : Op) (h : step st op = some st') :
   step_frame st st' op h
 
 /-- N cycles: any sequence of steps of mode `m` alone (any number of start/stop cycles, any user registrations, any
-interleaving) that ends with a completed stop leaves all three registries exactly as they were before, provided `m`
+interleaving) that ends with a completed stop (its cleanup running in the callback) leaves all three registries exactly as they were before, provided `m`
 owned nothing at the beginning. -/
 theorem cycles_restore (cfg : Nat → Cfg) (pre ops : List Op) (m : Nat) (s' : St)
     (hclean : let s0 := run (init cfg) pre
@@ -75,11 +85,12 @@ theorem cycles_restore (cfg : Nat → Cfg) (pre ops : List Op) (m : Nat) (s' : S
     (htarget : ∀ op ∈ ops, op.target = m)
     (h : step (run (run (init cfg) pre) ops) (.stoppedCb m) = some s')
     (ha : ((run (run (init cfg) pre) ops).modes m).active = false)
-    (hs : ((run (run (init cfg) pre) ops).modes m).starting = false) :
+    (hs : ((run (run (init cfg) pre) ops).modes m).starting = false)
+    (hc : ((run (run (init cfg) pre) ops).modes m).cleanupPending = true) :
     s'.bus = (run (init cfg) pre).bus ∧ s'.sw = (run (init cfg) pre).sw ∧ s'.dl = (run (init cfg) pre).dl := by
   have hrun : run (run (init cfg) pre) ops = run (init cfg) (pre ++ ops) := (run_append _ pre ops).symm
-  rw [hrun] at h ha hs
-  obtain ⟨r1, r2, r3⟩ := registries_restored cfg (pre ++ ops) m s' h ha hs
+  rw [hrun] at h ha hs hc
+  obtain ⟨r1, r2, r3⟩ := registries_restored cfg (pre ++ ops) m s' h ha hs hc
   obtain ⟨f1, f2, f3⟩ := run_frame (run (init cfg) pre) ops m htarget
   obtain ⟨g1, g2, g3⟩ := step_frame _ s' (.stoppedCb m) h
   rw [← hrun] at g1 g2 g3
@@ -98,7 +109,7 @@ theorem accepted_start_activates (st st1 : St) (m : Nat) (p : Option Int) (q : B
     ∃ st2, step st1 (.started m) = some st2 ∧ (st2.modes m).active = true ∧ (st2.modes m).starting = false := by
   simp [step, ha, hs] at h
   subst h
-  simp [step]
+  simp [step, startCore]
 
 theorem accepted_stop_completes (st st1 : St) (m : Nat)
     (ha : (st.modes m).active = true) (hp : (st.modes m).stopping = false)
@@ -123,13 +134,62 @@ example : (let s := run (init exCfg) [.start 1 none false true, .start 2 none tr
     (s.act, s.bus.map (·.owner), s.sw, s.dl, (s.modes 1).active, s.log.length)) = ([2], [2], [], [], false, 9) := by
   decide
 
-/-- Known finding (kept as it is in the code): a start accepted between `_stopped` and `_mode_stopped_callback`
-(e.g. from a `mode_<n>_stopped` handler) loses its handlers to the pending callback: the mode ends up active with
-none of its own handlers (so its stop_events are no longer heard). -/
-theorem restart_in_stopped_handler_witness :
+/-- The restart from a `mode_<n>_stopped` handler (formerly a known finding, now repaired): a start accepted while the
+cleanup of the previous stop is still pending performs that cleanup first — afterwards the mode owns exactly the fresh
+footprint of this start (no event handler, switch handler or delay of the previous run), the cleanup is no longer
+pending — -/
+theorem restart_starts_clean (cfg : Nat → Cfg) (ops : List Op) (m : Nat) (p : Option Int) (q : Bool) (s1 : St)
+    (ha : ((run (init cfg) ops).modes m).active = false) (hs : ((run (init cfg) ops).modes m).starting = false)
+    (hc : ((run (init cfg) ops).modes m).cleanupPending = true)
+    (h : step (run (init cfg) ops) (.start m p q true) = some s1) :
+    s1.bus.filter (ownedBy m) = mkEnts m .own (cfg m).nOwn ++ mkEnts m .cfg (cfg m).nCfg ∧
+    (∀ e ∈ s1.sw, e.owner ≠ m) ∧ (∀ e ∈ s1.dl, e.owner ≠ m) ∧ (s1.modes m).cleanupPending = false := by
+  have hI := run_inv _ ops (inv_init cfg)
+  have hcfg : (run (init cfg) ops).cfg = cfg := run_cfg _ ops
+  simp [step, ha, hs] at h
+  subst h
+  simp only [startCore, cleanup, hc, if_true, hcfg]
+  refine ⟨?_, ?_, ?_, by simp⟩
+  · rw [List.filter_append, List.filter_append]
+    have h1 : (List.filter (fun e => !(ownedBy m e && (e.cls == Cls.own || e.cls == Cls.dev))) (run (init cfg) ops).bus).filter
+        (ownedBy m) = [] := by
+      rw [List.filter_eq_nil_iff]
+      intro e he hm
+      simp only [List.mem_filter] at he
+      have heq : e.owner = m := by simpa [ownedBy] using hm
+      have h2 := he.2
+      have hcl : e.cls = .cfg := by
+        cases hcl : e.cls <;> simp [ownedBy, heq, hcl] at h2 ⊢
+      have := hI.cfgOwned e he.1 hcl
+      rw [heq, ha, hs] at this
+      simp at this
+    have h2 : ∀ c n, (mkEnts m c n).filter (ownedBy m) = mkEnts m c n := by
+      intro c n
+      rw [List.filter_eq_self]
+      intro e he
+      simp [ownedBy, (mkEnts_owner m c n e he).1]
+    rw [h1, h2, h2]; rfl
+  · intro e he heq
+    simp only [List.mem_filter] at he
+    have := he.2; simp [ownedBy, heq] at this
+  · intro e he heq
+    simp only [List.mem_filter] at he
+    have := he.2; simp [ownedBy, heq] at this
+
+/-- — and the callback of the previous stop, when it finally runs, touches no registry any more: the new run keeps
+all its handlers, switch handlers, delays and devices. -/
+theorem late_stop_callback_harmless (st st' : St) (m : Nat) (hc : (st.modes m).cleanupPending = false)
+    (h : step st (.stoppedCb m) = some st') : st'.bus = st.bus ∧ st'.sw = st.sw ∧ st'.dl = st.dl := by
+  simp only [step] at h
+  split at h
+  · cases h
+  · cases h; simp [cbCore, cleanup, hc]
+
+/-- the former witness, now with the repaired outcome: the restarted mode is active and has its own handlers -/
+example :
     (let s := run (init exCfg) [.start 1 none false true, .started 1, .startedCb 1, .stop 1, .stopped 1,
         .start 1 none false true, .stoppedCb 1, .started 1, .startedCb 1]
-     ((s.modes 1).active, (s.bus.filter (fun e => e.owner == 1 && e.cls == .own)).length)) = (true, 0) := by
+     ((s.modes 1).active, (s.bus.filter (fun e => e.owner == 1 && e.cls == .own)).length)) = (true, 2) := by
   decide
 
 end MpfVerif.C07
